@@ -26,6 +26,9 @@ type RawTarget struct {
 	echo     map[string]string // X-Case -> X-Val of the requests that carried both (under mu)
 	BigSize  int
 	Hold     time.Duration // how long "timeout" keeps the connection silent
+	// Tunnel: what a CONNECT is answered with ("" = 200 Connection established): tunrefused (closed without an answer),
+	// tun407, tungarbage (no status line), tunextra (200 and bytes behind it)
+	Tunnel atomic.Value
 }
 
 func NewRawTarget() *RawTarget {
@@ -151,6 +154,20 @@ func (t *RawTarget) serve(c net.Conn) {
 			sink.ReadFrom(req.Body)
 		}
 		if req.Method == "CONNECT" { // the connect gun's tunnel: established, the tunnelled requests follow
+			mode, _ := t.Tunnel.Load().(string)
+			switch mode {
+			case "tunrefused":
+				return
+			case "tun407":
+				c.Write([]byte("HTTP/1.1 407 Proxy Authentication Required\r\nProxy-Authenticate: Basic realm=\"x\"\r\nContent-Length: 0\r\n\r\n"))
+				return
+			case "tungarbage":
+				c.Write([]byte("\x00\x01garbage instead of a status line\r\n\r\n"))
+				return
+			case "tunextra":
+				c.Write([]byte("HTTP/1.1 200 Connection established\r\n\r\nSSH-2.0-not-http\r\n"))
+				return
+			}
 			c.Write([]byte("HTTP/1.1 200 Connection established\r\n\r\n"))
 			continue
 		}
@@ -176,6 +193,45 @@ func (t *RawTarget) serve(c net.Conn) {
 		case letter == "early":
 			c.Write([]byte("HTTP/1.1 103 Early Hints\r\nLink: </x>; rel=preload\r\n\r\n"))
 			c.Write(okResponse(200, goodBody, longTok))
+		case letter == "cont100": // an interim 100 Continue nobody asked for, then the response
+			c.Write([]byte("HTTP/1.1 100 Continue\r\n\r\n"))
+			c.Write(okResponse(200, goodBody, longTok))
+		case letter == "many1xx": // more interim responses than any client puts up with
+			for i := 0; i < 8; i++ {
+				c.Write([]byte("HTTP/1.1 103 Early Hints\r\nLink: </x>; rel=preload\r\n\r\n"))
+			}
+			c.Write(okResponse(200, goodBody, longTok))
+			return
+		case letter == "upgrade": // 101 to a request that did not ask for an upgrade, then the peer hangs up
+			c.Write([]byte("HTTP/1.1 101 Switching Protocols\r\nUpgrade: websocket\r\nConnection: Upgrade\r\nX-Tok: " + longTok + "\r\n\r\n"))
+			return
+		case letter == "chunkhuge":
+			c.Write([]byte("HTTP/1.1 200 OK\r\nX-Tok: " + longTok + "\r\nTransfer-Encoding: chunked\r\n\r\nFFFFFFFFFFFFFFFFFFFF\r\n{\"tok\"\r\n0\r\n\r\n"))
+			return
+		case letter == "chunkneg":
+			c.Write([]byte("HTTP/1.1 200 OK\r\nX-Tok: " + longTok + "\r\nTransfer-Encoding: chunked\r\n\r\n-5\r\n{\"tok\"\r\n0\r\n\r\n"))
+			return
+		case letter == "chunknocrlf": // the chunk data is not followed by CRLF
+			c.Write([]byte("HTTP/1.1 200 OK\r\nX-Tok: " + longTok + "\r\nTransfer-Encoding: chunked\r\n\r\n5\r\n{\"tokXX5\r\nabcde\r\n0\r\n\r\n"))
+			return
+		case letter == "chunktrunc": // the stream ends inside a chunk
+			c.Write([]byte("HTTP/1.1 200 OK\r\nX-Tok: " + longTok + "\r\nTransfer-Encoding: chunked\r\n\r\n40\r\n{\"tok\":\"j"))
+			return
+		case letter == "gzipraw" || letter == "gzipbad": // Content-Encoding: gzip, the body is not gzip
+			garbage := "\x1f\x8b\x08\x00garbage that is no deflate stream \xff\xfe\x00\x01"
+			fmt.Fprintf(c, "HTTP/1.1 200 OK\r\nX-Tok: %s\r\nContent-Encoding: gzip\r\nContent-Length: %d\r\n\r\n%s", longTok, len(garbage), garbage)
+		case letter == "manyheaders": // a header block of 1.2 MB in 20 000 lines
+			var b bytes.Buffer
+			b.WriteString("HTTP/1.1 200 OK\r\nContent-Type: application/json\r\nX-Tok: " + longTok + "\r\n")
+			for i := 0; i < 20000; i++ {
+				fmt.Fprintf(&b, "X-Pad-%05d: %s\r\n", i, "0123456789012345678901234567890123456789012345")
+			}
+			fmt.Fprintf(&b, "Content-Length: %d\r\n\r\n%s", len(goodBody), goodBody)
+			c.Write(b.Bytes())
+		case letter == "dribble": // the response arrives in one-byte writes
+			for _, by := range okResponse(200, goodBody, longTok) {
+				c.Write([]byte{by})
+			}
 		case letter == "empty":
 			c.Write([]byte("HTTP/1.1 200 OK\r\nX-Tok: " + longTok + "\r\nContent-Length: 0\r\n\r\n"))
 		case letter == "big":
@@ -190,6 +246,9 @@ func (t *RawTarget) serve(c net.Conn) {
 			c.Write(okResponse(200, goodBody, "ab"))
 		case letter == "nohdr":
 			c.Write(okResponse(200, goodBody, ""))
+		case strings.HasPrefix(letter, "lst"): // what later steps index as a list: empty / one element / not a list at all
+			list := map[string]string{"lst0": "[]", "lst1": "[5]", "lststr": `"abc"`, "lstnull": "null", "lstobj": "{}"}[letter]
+			c.Write(okResponse(200, `{"tok":"j7","list":`+list+`}`, longTok))
 		case letter == "trunc":
 			c.Write([]byte("HTTP/1.1 200 OK\r\nX-Tok: " + longTok + "\r\nContent-Length: 100\r\n\r\n{\"tok\":\"j"))
 			return
